@@ -103,7 +103,7 @@ impl Check for C16 {
             // harness-made membership views, anti-entropy off: a node comes back on another
             // address (left + joined of one id in a single change), then direct replication must
             // still reach every live peer
-            let k = crate::e2::c01::GenKnobs { max_nodes: 4, max_ops: 12, span_ms: 8_000, level_bias_none: 0.7 };
+            let k = crate::e2::c01::GenKnobs { max_nodes: 4, max_ops: 12, span_ms: 8_000, level_bias_none: 0.7, ghosts: 0.6, big_bulk: 0.0 };
             let mut sc = crate::e2::c01::gen_cluster_scenario(&mut rng, &k);
             sc.cfg.repair_interval_ms = 3_600_000;
             sc.closing_mode = "explicit".into();
